@@ -404,14 +404,16 @@ def _spy_queue_class(record, name_of, is_canceled):
             record["queues"].append(self)
             record["depth"] = a[0] if a else kw.get("max_queue_depth")
             self._spy_private = True
+            self._spy_enq = []      # jobs that submit() did not start, in submission order
 
         def _spy_obs(self):
             out = [(name_of(j), is_canceled(j)) for j in self.outstanding_jobs]
             if hasattr(self, "_queued_jobs"):
                 qd = [(name_of(j), sorted(int(b) for b in j.get_blocking_jobs())) for j in self._queued_jobs]
-            else:
+            else:   # FIFO: the jobs enqueued and neither started nor canceled since, in submission order
                 self._spy_private = False
-                qd = None
+                qd = [(name_of(j), sorted(int(b) for b in j.get_blocking_jobs())) for j in self._spy_enq
+                      if id(j) not in record.setdefault("started", set())]
             nj, nc = getattr(self, "_num_jobs", None), getattr(self, "_num_completed", None)
             if nj is None or nc is None:
                 self._spy_private = False
@@ -424,6 +426,8 @@ def _spy_queue_class(record, name_of, is_canceled):
             record["last_run_ok"] = None
             super().submit(job)
             record["ops"][-1].append(record["last_run_ok"])   # None: run() was not called
+            if record["last_run_ok"] is None:
+                self._spy_enq.append(job)
             record["obs"].append(self._spy_obs())
 
         def process_queue(self):
@@ -552,6 +556,8 @@ def run_node(sc, tmp):
         blk = sorted(int(b) for b in self.get_blocking_jobs())
         r = o_run(self)
         n = int(self.name)
+        record.setdefault("started", set()).add(id(self))
+        record["last_run_ok"] = True
         record["log"].append(("run", spec[n], blk, True, sum(1 for p in procs if p.returncode is None)))
         return r
 
@@ -559,6 +565,7 @@ def run_node(sc, tmp):
         n = int(self.name)
         record["log"].append(("cancel", spec[n], prev_block.get(n, sorted(int(b) for b in self.get_blocking_jobs()))))
         canceled.add(n)
+        record.setdefault("started", set()).add(id(self))
         return o_cancel(self)
 
     def w_ic(self):
@@ -615,7 +622,7 @@ def run_node(sc, tmp):
         else:
             ops.append(("process", o[1] if len(o) > 1 else record["cur_answers"], []))
     obs = record["obs"]
-    private = all(q._spy_private for q in record["queues"]) and all(o["queued"] is not None for o in obs)
+    private = all(q._spy_private for q in record["queues"])
     return {"depth": record["depth"], "ops": ops, "obs": obs, "log": record["log"], "launches": launches, "rows": rows,
             "error": err, "stuck": stuck, "n_queues": len(record["queues"]), "private": private, "status": str(status)}
 
@@ -749,6 +756,7 @@ def run_hpc(sc, tmp):
             ok = str(r).endswith("GOOD")
             record["log"].append(("run", {"name": name_of(self), "block": [], "flag": False}, [], ok, 0))
             record["last_run_ok"] = ok
+            record.setdefault("started", set()).add(id(self))
             return r
 
         def w_ic(self):
@@ -792,7 +800,7 @@ def run_hpc(sc, tmp):
                 else:
                     ops.append(("process", o[1] if len(o) > 1 else record["cur_answers"], []))
             obs = record["obs"]
-            private = all(q._spy_private for q in record["queues"]) and all(o["queued"] is not None for o in obs)
+            private = all(q._spy_private for q in record["queues"])
             rounds.append({"depth": record["depth"], "existing": [int(i) for i in before], "ops": ops, "obs": obs,
                            "log": record["log"], "persisted_before": before, "persisted_after": after,
                            "active_before": active_before, "snapshot": cur["snapshot"], "new_ids": list(cur["new_ids"]),
